@@ -5,6 +5,7 @@ import (
 	"go/ast"
 	"go/token"
 	"go/types"
+	"sort"
 	"strings"
 
 	"golang.org/x/tools/go/ssa"
@@ -774,6 +775,738 @@ func c10r12(c *Ctx, r *Report) {
 		"whole Range values are compared", fmt.Sprintf("only %d of the %d fields of Range are compared", len(fields), nf))
 }
 
+// c11r21: transformOffsets(diff, rightTrim) shifts the colour spans after the line was cut for display;
+// rightTrim says that the RIGHT end was replaced by the ellipsis, which costs the spans that reach it two more
+// cells. It may only be true where that cut happened on the path (round-9 mutant C11c9 passed true in the
+// keep-right branch, which cuts on the left only: the last two visible characters of a colour span that reaches
+// the right edge lost their colour).
+func c11r21(c *Ctx, r *Report) {
+	l := c.L
+	r.rule("C11-R21", "D (the right-trim flag follows a cut of the right end)", "P1",
+		"in Terminal.printHighlighted, every call of the span-shifting closure (parameters diff, rightTrim) that receives true for rightTrim — as a constant, or as the true edge of a phi — is reached through an append of the ellipsis to a left part of the line on that path",
+		"with --keep-right the end of a coloured line is drawn without its colour")
+	fn := l.Fn("fzf", "(*Terminal).printHighlighted")
+	if fn == nil {
+		r.unest("anchors", token.NoPos, nil, "anchor Terminal.printHighlighted", "cannot resolve")
+		return
+	}
+	// the closure: two parameters (int32, bool)
+	var shifter *ssa.Function
+	for _, g := range fn.AnonFuncs {
+		if len(g.Params) == 2 {
+			if bt, ok := g.Params[1].Type().Underlying().(*types.Basic); ok && bt.Kind() == types.Bool {
+				if it, ok := g.Params[0].Type().Underlying().(*types.Basic); ok && it.Kind() == types.Int32 {
+					shifter = g
+				}
+			}
+		}
+	}
+	if shifter == nil {
+		r.unest(relName(fn)+":shifter", fn.Pos(), fn, "the closure transformOffsets(diff int32, rightTrim bool)", "not found")
+		return
+	}
+	// a right cut: append(<slice of something>, ellipsis...) where the first operand is a Slice with a High bound
+	isRightCut := func(in ssa.Instruction) bool {
+		call, ok := in.(*ssa.Call)
+		if !ok {
+			return false
+		}
+		b, ok := call.Common().Value.(*ssa.Builtin)
+		if !ok || b.Name() != "append" || len(call.Call.Args) != 2 {
+			return false
+		}
+		sl, ok := call.Call.Args[0].(*ssa.Slice)
+		return ok && sl.High != nil
+	}
+	n := 0
+	eachInstr(fn, func(in ssa.Instruction) {
+		call, ok := in.(*ssa.Call)
+		if !ok {
+			return
+		}
+		fs, _ := resolveFuncs(call.Common().Value)
+		is := false
+		for _, f := range fs {
+			if f == shifter {
+				is = true
+			}
+		}
+		if !is {
+			return
+		}
+		n++
+		flag := call.Call.Args[len(call.Call.Args)-1]
+		// blocks from which `true` arrives
+		var trueFrom []*ssa.BasicBlock
+		if v, isK := constBool(flag); isK {
+			if v {
+				trueFrom = append(trueFrom, call.Block())
+			}
+		} else if phi, ok := flag.(*ssa.Phi); ok {
+			for i, e := range phi.Edges {
+				if v, isK := constBool(e); isK && v {
+					trueFrom = append(trueFrom, phi.Block().Preds[i])
+				} else if !isK {
+					trueFrom = append(trueFrom, nil)
+				}
+			}
+		} else {
+			trueFrom = append(trueFrom, nil)
+		}
+		good := true
+		for _, bb := range trueFrom {
+			if bb == nil {
+				good = false
+				continue
+			}
+			// a right cut in bb or in a block dominating it, inside the same branch
+			found := false
+			for d := bb; d != nil; d = d.Idom() {
+				for _, i2 := range d.Instrs {
+					if isRightCut(i2) && (d != call.Block() || instrIndex(i2) < instrIndex(in)) {
+						found = true
+					}
+				}
+				if found {
+					break
+				}
+			}
+			if !found {
+				good = false
+			}
+		}
+		r.check(good, fmt.Sprintf("%s:span shift #%d gets rightTrim=true only after a cut of the right end", relName(fn), n), call.Pos(), fn,
+			"true arrives only from a path that appended the ellipsis on the right", "rightTrim can be true on a path that did not cut the right end of the line")
+	})
+	r.floor("calls of the span-shifting closure", n, 2)
+}
+
+// c13r13: Reader.event is a three-state flag shared by the loader (feed / fin) and the poller goroutine. The
+// poller consumes "new items" by a compare-and-swap, so that a concurrent EvtReadFin written by the loader is
+// never overwritten (round-9 mutant C13a9 replaced the CAS by load, Set, store: the store, delayed by Set while
+// the coordinator held the box, overwrote EvtReadFin; Reader.fin then waited forever and the last items were
+// never searched).
+func c13r13(c *Ctx, r *Report) {
+	l := c.L
+	r.rule("C13-R13", "B (the poller changes the reader's event flag by compare-and-swap only)", "P1",
+		"in Reader.startEventPoller and its closures, Reader.event is written only by atomic.CompareAndSwapInt32 (no atomic.StoreInt32, no plain store)",
+		"the end-of-input event is lost: the final search never happens and fzf never finishes loading")
+	fn := l.Fn("fzf", "(*Reader).startEventPoller")
+	fEv := l.Field("fzf", "Reader", "event")
+	if fn == nil || fEv == nil {
+		r.unest("anchors", token.NoPos, nil, "anchors Reader.startEventPoller / Reader.event", "cannot resolve")
+		return
+	}
+	onEvent := func(v ssa.Value) bool {
+		for w := range backwardSlice(v, nil, nil) {
+			if fld, _ := fieldOf(w); fld == fEv {
+				return true
+			}
+		}
+		return false
+	}
+	cas, bad := 0, 0
+	for _, g := range withClosures(fn) {
+		eachInstr(g, func(in ssa.Instruction) {
+			switch x := in.(type) {
+			case *ssa.Call:
+				switch calleeName(x.Common()) {
+				case "sync/atomic.CompareAndSwapInt32":
+					if onEvent(x.Call.Args[0]) {
+						cas++
+					}
+				case "sync/atomic.StoreInt32", "sync/atomic.SwapInt32", "sync/atomic.AddInt32":
+					if onEvent(x.Call.Args[0]) {
+						bad++
+						r.bad(fmt.Sprintf("%s:unconditional write #%d of the event flag", relName(fn), bad), x.Pos(), g, "compare-and-swap", "the poller writes Reader.event unconditionally: a state written by the loader in the meantime is overwritten")
+					}
+				}
+			case *ssa.Store:
+				if onEvent(x.Addr) {
+					if fld, _ := fieldOf(x.Addr); fld == fEv {
+						bad++
+						r.bad(fmt.Sprintf("%s:unconditional write #%d of the event flag", relName(fn), bad), x.Pos(), g, "compare-and-swap", "the poller stores into Reader.event without synchronisation")
+					}
+				}
+			}
+		})
+	}
+	if bad == 0 {
+		r.ok(relName(fn)+":the poller only compare-and-swaps the event flag", fn.Pos(), fn, fmt.Sprintf("%d compare-and-swap sites, no other write", cas))
+	}
+	r.floor("compare-and-swap sites on Reader.event in the poller", cas, 1)
+}
+
+// c13r14: the `space` handed to matchChunk is a list owned by the chunk cache (the matches of a shorter
+// query). It is read, never written: the matches are collected in a slice of their own (round-9 mutant C13c9
+// started from `matches := space[:0]` "to filter without allocating": appending overwrote the cached list, and
+// going back to the shorter query served the damaged list).
+func c13r14(c *Ctx, r *Report) {
+	l := c.L
+	r.rule("C13-R14", "F (the cached search scope is not appended to)", "P1",
+		"in Pattern.matchChunk, no append has as its first operand a value derived from the `space` parameter",
+		"the cached result of a shorter query is overwritten while a longer one is searched: going back shows fewer lines than match")
+	fn := l.Fn("fzf", "(*Pattern).matchChunk")
+	if fn == nil || len(fn.Params) < 3 {
+		r.unest("anchors", token.NoPos, nil, "anchor Pattern.matchChunk", "cannot resolve")
+		return
+	}
+	var space *ssa.Parameter
+	for _, p := range fn.Params {
+		if p.Name() == "space" {
+			space = p
+		}
+	}
+	if space == nil {
+		r.unest(relName(fn)+":space", fn.Pos(), fn, "the parameter holding the cached list", "no parameter named space")
+		return
+	}
+	n := 0
+	eachInstr(fn, func(in ssa.Instruction) {
+		call, ok := in.(*ssa.Call)
+		if !ok {
+			return
+		}
+		b, ok := call.Common().Value.(*ssa.Builtin)
+		if !ok || b.Name() != "append" {
+			return
+		}
+		n++
+		alias := false
+		for w := range backwardSlice(call.Call.Args[0], nil, func(x ssa.Value) bool {
+			c2, ok := x.(*ssa.Call)
+			if !ok {
+				return false
+			}
+			b2, isB := c2.Common().Value.(*ssa.Builtin)
+			return !(isB && b2.Name() == "append")
+		}) {
+			if w == ssa.Value(space) {
+				alias = true
+			}
+		}
+		r.check(!alias, fmt.Sprintf("%s:append #%d collects into a slice of its own", relName(fn), n), call.Pos(), fn,
+			"the destination does not share storage with the cached list", "matches are appended to (a re-slice of) the cached list handed in as `space`")
+	})
+	r.floor("appends in matchChunk", n, 4)
+}
+
+// c14r20: the terminal state that fzf restores on exit is the one it found when it started. It is saved
+// once, by initPlatform; the raw mode that Resume re-enters after execute(...) or CTRL-Z is NOT a state to
+// restore (round-9 mutant C14b9 let setupTerminal save MakeRaw's result as well: after an execute(stty ...) the
+// terminal was left with ECHO and ICANON off).
+func c14r20(c *Ctx, r *Report) {
+	l := c.L
+	r.rule("C14-R20", "B (who may write the saved terminal state)", "P1",
+		"LightRenderer.origState is stored only by LightRenderer.initPlatform",
+		"on exit the terminal is restored to a state a child process left behind (or to raw mode) instead of the one fzf found")
+	fO := l.Field("tui", "LightRenderer", "origState")
+	ip := l.Fn("tui", "(*LightRenderer).initPlatform")
+	if fO == nil || ip == nil {
+		r.unest("anchors", token.NoPos, nil, "anchors LightRenderer.origState / initPlatform", "cannot resolve")
+		return
+	}
+	n, in0 := 0, 0
+	for _, fn := range l.AllFuncs() {
+		if fn.Blocks == nil || fn.Pkg == nil || !isModulePkg(fn.Pkg.Pkg) {
+			continue
+		}
+		eachInstr(fn, func(in ssa.Instruction) {
+			st, ok := in.(*ssa.Store)
+			if !ok {
+				return
+			}
+			if fld, _ := fieldOf(st.Addr); fld != fO {
+				return
+			}
+			n++
+			if rootFn(fn) == ip {
+				in0++
+				return
+			}
+			r.bad(fmt.Sprintf("%s:store into the saved terminal state", relName(fn)), st.Pos(), fn, "saved once at start-up", "the saved terminal state is overwritten after start-up")
+		})
+	}
+	r.ok(relName(ip)+":the terminal state is saved once", ip.Pos(), ip, fmt.Sprintf("%d stores into origState, all in initPlatform", n))
+	r.floor("stores into LightRenderer.origState in initPlatform", in0, 1)
+}
+
+// c12r14: the popup's script re-exports fzf's environment with `export NAME=VALUE` lines that a shell reads;
+// VALUE therefore goes through the same single-quote escaping as the arguments (round-9 mutant C16a9 wrote it
+// with %q: Go's double-quoted form lets the shell expand `$`, backquotes and backslashes — an API key `s3cr$t9`
+// arrived as `s3cr`, and the truncated key was accepted).
+func c12r14(c *Ctx, r *Report) {
+	l := c.L
+	r.rule("C12-R14", "D (exported values are single-quoted)", "P1",
+		"in runProxy, every fmt.Sprintf whose constant format begins with `export ` has no %q verb, and the operand of its last %s is the result of escapeSingleQuote",
+		"environment values containing $, ` or \\ reach the fzf inside the popup altered: the listener's API key is not the configured one, preview commands see other values")
+	fn := l.Fn("fzf", "runProxy")
+	esq := l.Fn("fzf", "escapeSingleQuote")
+	if fn == nil || esq == nil {
+		r.unest("anchors", token.NoPos, nil, "anchors runProxy / escapeSingleQuote", "cannot resolve")
+		return
+	}
+	n := 0
+	eachInstr(fn, func(in ssa.Instruction) {
+		call, ok := in.(*ssa.Call)
+		if !ok || calleeName(call.Common()) != "fmt.Sprintf" {
+			return
+		}
+		format, isK := constString(call.Call.Args[0])
+		if !isK || !strings.HasPrefix(format, "export ") {
+			return
+		}
+		n++
+		why := ""
+		if strings.Contains(format, "%q") || strings.Contains(format, "%v") {
+			why = "the format " + fmt.Sprintf("%q", format) + " renders the value with Go's quoting, which a shell expands"
+		}
+		// the variadic slice: the last element stored
+		var last ssa.Value
+		lastIdx := int64(-1)
+		for w := range backwardSlice(call.Call.Args[1], nil, nil) {
+			al, ok := w.(*ssa.Alloc)
+			if !ok {
+				continue
+			}
+			eachInstr(fn, func(i2 ssa.Instruction) {
+				st, ok := i2.(*ssa.Store)
+				if !ok {
+					return
+				}
+				ia, ok := st.Addr.(*ssa.IndexAddr)
+				if !ok || ia.X != ssa.Value(al) {
+					return
+				}
+				if k, isK := constIntVal(ia.Index); isK && k > lastIdx {
+					lastIdx, last = k, st.Val
+				}
+			})
+		}
+		if why == "" {
+			quoted := false
+			if mi, ok := last.(*ssa.MakeInterface); ok {
+				if c2, ok := mi.X.(*ssa.Call); ok && c2.Common().StaticCallee() == esq {
+					quoted = true
+				}
+			}
+			if !quoted {
+				why = "the exported value is " + describe(last) + ", not escapeSingleQuote(..)"
+			}
+		}
+		r.check(why == "", fmt.Sprintf("%s:export line #%d single-quotes the value", relName(fn), n), call.Pos(), fn, "export NAME='...'", why)
+	})
+	r.floor("export lines built in runProxy", n, 1)
+}
+
+// c16r20: the action parser runs on the server goroutine (POST bodies) and on the terminal goroutine
+// (transform output, --bind at start-up) without a common lock; it must be a function of its argument
+// (round-9 mutant C16c9 cached compiled regexps in a package-level map: two goroutines wrote the map —
+// "concurrent map writes", fzf died).
+func c16r20(c *Ctx, r *Report) {
+	l := c.L
+	r.rule("C16-R20", "B (no writer of package-level state below the action parser)", "P1",
+		"no function reachable from parseSingleActionList (static calls and the calls the VTA graph resolves) stores into a package-level variable or updates a package-level map",
+		"a POST and a transform action parsed at the same time race on shared parser state: fzf can crash on a request")
+	root := l.Fn("fzf", "parseSingleActionList")
+	if root == nil {
+		r.unest("anchors", token.NoPos, nil, "anchor parseSingleActionList", "cannot resolve")
+		return
+	}
+	cg := l.CallGraph()
+	reach := map[*ssa.Function]bool{}
+	var walk func(f *ssa.Function)
+	walk = func(f *ssa.Function) {
+		if f == nil || reach[f] || f.Blocks == nil || f.Pkg == nil || !isModulePkg(f.Pkg.Pkg) {
+			return
+		}
+		reach[f] = true
+		if nd := cg.Nodes[f]; nd != nil {
+			for _, e := range nd.Out {
+				walk(e.Callee.Func)
+			}
+		}
+		eachInstr(f, func(in ssa.Instruction) {
+			walk(staticCallee(in))
+			if mcl, ok := in.(*ssa.MakeClosure); ok {
+				walk(mcl.Fn.(*ssa.Function))
+			}
+		})
+	}
+	walk(root)
+	var fns []*ssa.Function
+	for f := range reach {
+		fns = append(fns, f)
+	}
+	sort.Slice(fns, func(i, j int) bool { return relName(fns[i]) < relName(fns[j]) })
+	n := 0
+	for _, f := range fns {
+		k := 0
+		eachInstr(f, func(in ssa.Instruction) {
+			var addr ssa.Value
+			switch x := in.(type) {
+			case *ssa.Store:
+				addr = x.Addr
+			case *ssa.MapUpdate:
+				addr = x.Map
+			default:
+				return
+			}
+			n++
+			root := addrRoot(addr)
+			if u, ok := root.(*ssa.UnOp); ok && u.Op == token.MUL {
+				root = addrRoot(u.X)
+			}
+			if g, ok := root.(*ssa.Global); ok {
+				k++
+				r.bad(fmt.Sprintf("%s:write #%d to package-level %s", relName(f), k, g.Name()), in.Pos(), f, "the parser keeps no state", "a function the action parser runs writes the package-level variable "+g.Name()+" (server and terminal goroutines parse concurrently)")
+			}
+		})
+	}
+	r.ok(relName(root)+":no package-level state is written below the action parser", root.Pos(), root, fmt.Sprintf("%d functions reachable, %d stores inspected, none into a package-level variable", len(fns), n))
+	r.floor("functions reachable from parseSingleActionList", len(fns), 10)
+}
+
+// c17r24: `--preview-window ...,<N(alt)` copies the options parsed so far as the base of the alternative
+// layout. The copy includes the pointer to an alternative that an EARLIER --preview-window installed, so it is
+// cleared before the alternative is parsed (round-9 mutant C17a9 dropped that line: with two occurrences of
+// `<N(...)` the earlier layer's alternative came back at run time — later occurrences did not override earlier ones).
+func c17r24(c *Ctx, r *Report) {
+	l := c.L
+	r.rule("C17-R24", "A (the copied options start without an alternative of their own)", "P1",
+		"in parsePreviewWindowImpl, every path from the store of a fresh copy into previewOpts.alternative to the recursive call passes a store of nil into the copy's own alternative field",
+		"the alternative layout of an earlier --preview-window resurfaces below the threshold: a later occurrence does not override the earlier one")
+	fn := l.Fn("fzf", "parsePreviewWindowImpl")
+	if fn == nil {
+		r.unest("anchors", token.NoPos, nil, "anchor parsePreviewWindowImpl", "cannot resolve")
+		return
+	}
+	n := 0
+	eachInstr(fn, func(in ssa.Instruction) {
+		st, ok := in.(*ssa.Store)
+		if !ok {
+			return
+		}
+		fld, _ := fieldOf(st.Addr)
+		if fld == nil || fld.Name() != "alternative" {
+			return
+		}
+		copyAl, ok := st.Val.(*ssa.Alloc)
+		if !ok {
+			return
+		}
+		n++
+		isClear := func(i ssa.Instruction) bool {
+			s2, ok := i.(*ssa.Store)
+			if !ok {
+				return false
+			}
+			f2, base := fieldOf(s2.Addr)
+			if f2 == nil || f2.Name() != "alternative" {
+				return false
+			}
+			cst, isNil := s2.Val.(*ssa.Const)
+			if !isNil || !cst.IsNil() {
+				return false
+			}
+			// base is the copy: the Alloc itself or a load of the field it was stored into
+			if base == ssa.Value(copyAl) {
+				return true
+			}
+			if f3, _ := loadedField(base); f3 != nil && f3.Name() == "alternative" {
+				return true
+			}
+			return false
+		}
+		isRec := func(i ssa.Instruction) bool { return staticCallee(i) == fn }
+		hit := pathAvoiding(st, isRec, isClear, nil)
+		r.check(hit == nil, fmt.Sprintf("%s:alternative copy #%d is cleared before it is parsed", relName(fn), n), st.Pos(), fn,
+			"copy.alternative = nil precedes the recursive call", "the copy keeps the alternative pointer of the options it was copied from")
+	})
+	r.floor("copies installed as previewOpts.alternative", n, 1)
+}
+
+// runeLiteral reconstructs the constant contents of a []rune / string(..[]rune{..}) literal value.
+func runeLiteral(fn *ssa.Function, v ssa.Value) ([]rune, bool) {
+	v = stripConv(v)
+	if cv, ok := v.(*ssa.Convert); ok {
+		v = cv.X
+	}
+	sl, ok := v.(*ssa.Slice)
+	if !ok {
+		return nil, false
+	}
+	al, ok := sl.X.(*ssa.Alloc)
+	if !ok {
+		return nil, false
+	}
+	arr, ok := deref(al.Type()).Underlying().(*types.Array)
+	if !ok {
+		return nil, false
+	}
+	out := make([]rune, arr.Len())
+	seen := 0
+	eachInstr(fn, func(in ssa.Instruction) {
+		st, ok := in.(*ssa.Store)
+		if !ok {
+			return
+		}
+		ia, ok := st.Addr.(*ssa.IndexAddr)
+		if !ok || ia.X != ssa.Value(al) {
+			return
+		}
+		i, ok1 := constIntVal(ia.Index)
+		k, ok2 := constIntVal(st.Val)
+		if ok1 && ok2 && i >= 0 && i < int64(len(out)) {
+			out[i] = rune(k)
+			seen++
+		}
+	})
+	return out, seen == len(out)
+}
+
+// c17r25: maskActionContents hides `,` `:` `+` where they are KEY NAMES by replacing them with the private
+// escape characters; parseKeyChords maps the escape characters back. The replacement table therefore keeps the
+// length and puts, at every position that changes, the escape character of the character it replaces
+// (round-9 mutant C17b9 wrote escapedComma into the `,:,` entry: `--bind 'a,:,b:abort'` bound `,` instead of `:`).
+func c17r25(c *Ctx, r *Report) {
+	l := c.L
+	r.rule("C17-R25", "E (encoder table: each changed position holds the escape of the character it replaces)", "P1",
+		"in maskActionContents, every strings.ReplaceAll(masked, FROM, TO) with a constant FROM and a TO built from a rune literal has len(TO) == len(FROM) and, position by position, TO[i] == FROM[i] or TO[i] == the escape constant of FROM[i] (escapedColon for ':', escapedComma for ',', escapedPlus for '+')",
+		"a key list that contains `:` `,` or `+` as key names binds the wrong key: a key does not receive the listed actions")
+	fn := l.Fn("fzf", "maskActionContents")
+	if fn == nil {
+		r.unest("anchors", token.NoPos, nil, "anchor maskActionContents", "cannot resolve")
+		return
+	}
+	esc := map[rune]rune{}
+	for ch, name := range map[rune]string{':': "escapedColon", ',': "escapedComma", '+': "escapedPlus"} {
+		cst := l.Const("fzf", name)
+		if cst == nil {
+			r.unest("anchors:"+name, token.NoPos, nil, "anchor "+name, "cannot resolve")
+			return
+		}
+		v, _ := constInt(cst)
+		esc[ch] = rune(v)
+	}
+	n := 0
+	eachInstr(fn, func(in ssa.Instruction) {
+		call, ok := in.(*ssa.Call)
+		if !ok || calleeName(call.Common()) != "strings.ReplaceAll" {
+			return
+		}
+		from, isK := constString(call.Call.Args[1])
+		if !isK {
+			return
+		}
+		to, ok := runeLiteral(fn, call.Call.Args[2])
+		if !ok {
+			return
+		}
+		n++
+		fr := []rune(from)
+		why := ""
+		if len(fr) != len(to) {
+			why = fmt.Sprintf("%q is replaced by %d characters", from, len(to))
+		} else {
+			for i := range fr {
+				if to[i] != fr[i] && to[i] != esc[fr[i]] {
+					why = fmt.Sprintf("position %d of the replacement for %q is not the escape of %q", i, from, string(fr[i]))
+				}
+			}
+		}
+		r.check(why == "", fmt.Sprintf("%s:replacement for %q", relName(fn), from), call.Pos(), fn, "same length, escapes of the characters they replace", why)
+	})
+	r.floor("escape replacements in maskActionContents", n, 5)
+}
+
+// c18r13: the history file is framed by the writer as lines joined with "\n" plus a final empty line; the
+// reader may strip exactly that framing. Blanks at either end of a query belong to the query (round-9 mutant
+// C18a9 read with strings.TrimSpace: the newest entry `git ` came back as `git` and was written back that way).
+func c18r13(c *Ctx, r *Report) {
+	l := c.L
+	r.rule("C18-R13", "E (reader and writer of the history file agree on the framing)", "P1",
+		"in NewHistory, the file's contents reach strings.Split only through conversions and strings.Trim / TrimRight / TrimSuffix / TrimLeft / TrimPrefix with the constant cut set \"\\n\"",
+		"queries that begin or end with a blank are loaded without it: a new session does not load exactly the queries that were submitted")
+	fn := l.Fn("fzf", "NewHistory")
+	if fn == nil {
+		r.unest("anchors", token.NoPos, nil, "anchor NewHistory", "cannot resolve")
+		return
+	}
+	n := 0
+	eachInstr(fn, func(in ssa.Instruction) {
+		call, ok := in.(*ssa.Call)
+		if !ok || calleeName(call.Common()) != "strings.Split" {
+			return
+		}
+		n++
+		why := ""
+		for w := range backwardSlice(call.Call.Args[0], func(*ssa.CallCommon) bool { return true }, nil) {
+			c2, ok := w.(*ssa.Call)
+			if !ok {
+				continue
+			}
+			nm := calleeName(c2.Common())
+			switch nm {
+			case "os.ReadFile", "io.ReadAll":
+				continue
+			case "strings.Trim", "strings.TrimRight", "strings.TrimLeft", "strings.TrimSuffix", "strings.TrimPrefix":
+				if set, isK := constString(c2.Call.Args[1]); isK && set == "\n" {
+					continue
+				}
+				why = nm + " with a cut set other than \"\\n\""
+			default:
+				if _, isB := c2.Common().Value.(*ssa.Builtin); isB {
+					continue
+				}
+				why = "the contents pass through " + nm
+			}
+		}
+		r.check(why == "", fmt.Sprintf("%s:split #%d sees the file minus its line framing only", relName(fn), n), call.Pos(), fn, "only \"\\n\" is stripped", why+": characters that belong to a stored query are removed")
+	})
+	r.floor("splits of the history file", n, 1)
+}
+
+// c18r14: `become` ends the session like accept does, so the query is recorded. There are two ways out:
+// the process image is replaced on the spot, or — under --tmux — the request reqBecome makes the proxy do it.
+// exit() does not record for the become status, so BOTH ways have the append in front of them (round-9 mutant
+// C18b9 moved the append into the direct branch: a become inside a --tmux popup lost the query).
+func c18r14(c *Ctx, r *Report) {
+	l := c.L
+	r.rule("C18-R14", "A (must-pass-through: the query is recorded before either way out of become)", "P1",
+		"in Terminal.Loop's action interpreter, every path (with Terminal.history non-nil) from the call of tui.Close in the become case to Executor.Become or to the post of reqBecome passes History.append",
+		"the query submitted by a become inside a --tmux popup is not stored in the history file")
+	loop := l.Fn("fzf", "(*Terminal).Loop")
+	app := l.Fn("fzf", "(*History).append")
+	bec := l.Fn("util", "(*Executor).Become")
+	rb := l.Const("fzf", "reqBecome")
+	fH := l.Field("fzf", "Terminal", "history")
+	if loop == nil || app == nil || bec == nil || rb == nil || fH == nil {
+		r.unest("anchors", token.NoPos, nil, "anchors Terminal.Loop / History.append / Executor.Become / reqBecome / Terminal.history", "cannot resolve")
+		return
+	}
+	kb, _ := constInt(rb)
+	n := 0
+	for _, fn := range withClosures(loop) {
+		isSink := func(in ssa.Instruction) bool {
+			if staticCallee(in) == bec {
+				return true
+			}
+			call, ok := in.(*ssa.Call)
+			if !ok || call.Common().StaticCallee() != nil || call.Common().IsInvoke() {
+				return false
+			}
+			for _, a := range call.Call.Args {
+				for w := range backwardSlice(a, nil, nil) {
+					if k, isK := constIntVal(w); isK && k == kb {
+						if nn, ok := w.Type().(*types.Named); ok && nn.Obj().Name() == "EventType" {
+							return true
+						}
+					}
+				}
+			}
+			return false
+		}
+		var sinks []ssa.Instruction
+		eachInstr(fn, func(in ssa.Instruction) {
+			if isSink(in) {
+				sinks = append(sinks, in)
+			}
+		})
+		if len(sinks) == 0 {
+			continue
+		}
+		// start: the tui Close call that dominates the sinks
+		var start ssa.Instruction
+		eachInstr(fn, func(in ssa.Instruction) {
+			ci, ok := in.(ssa.CallInstruction)
+			if !ok || !ci.Common().IsInvoke() || ci.Common().Method.Name() != "Close" {
+				return
+			}
+			all := true
+			for _, s := range sinks {
+				if !dominates(in, s) {
+					all = false
+				}
+			}
+			if all {
+				start = in
+			}
+		})
+		if start == nil {
+			r.unest(relName(rootFn(fn))+":become", fn.Pos(), fn, "the tui.Close call of the become case", "not found")
+			continue
+		}
+		edgeOK := func(from, to *ssa.BasicBlock) bool {
+			iff, ok := from.Instrs[len(from.Instrs)-1].(*ssa.If)
+			if !ok {
+				return true
+			}
+			b, ok := iff.Cond.(*ssa.BinOp)
+			if !ok {
+				return true
+			}
+			if fld, _ := loadedField(b.X); fld != fH {
+				return true
+			}
+			if cst, ok := b.Y.(*ssa.Const); !ok || !cst.IsNil() {
+				return true
+			}
+			nonNilEdge := from.Succs[0]
+			if b.Op == token.EQL {
+				nonNilEdge = from.Succs[1]
+			}
+			return to == nonNilEdge
+		}
+		for _, s := range sinks {
+			n++
+			s := s
+			hit := pathAvoiding(start, func(i ssa.Instruction) bool { return i == s }, func(i ssa.Instruction) bool { return staticCallee(i) == app }, edgeOK)
+			r.check(hit == nil, fmt.Sprintf("%s:way out #%d of become records the query first", relName(rootFn(fn)), n), s.Pos(), fn,
+				"History.append precedes it", "this way out of become is reached without History.append: the submitted query is not stored")
+		}
+	}
+	r.floor("ways out of the become action", n, 2)
+}
+
+// c18r15: an entry the user edited while walking through the history is kept in History.modified and has to
+// come back when the entry is visited again — from either direction. previous() and next() therefore both answer
+// through current() (round-9 mutant C18c9 let next() return h.lines[h.cursor] after moving: coming back DOWN to an
+// edited entry showed the stored text).
+func c18r15(c *Ctx, r *Report) {
+	l := c.L
+	r.rule("C18-R15", "E (both directions of history navigation answer through current())", "P1",
+		"every value returned by History.previous and History.next is the result of History.current",
+		"an edited-but-unsubmitted entry is not returned when coming back to it from one of the two directions")
+	cur := l.Fn("fzf", "(*History).current")
+	if cur == nil {
+		r.unest("anchors", token.NoPos, nil, "anchor History.current", "cannot resolve")
+		return
+	}
+	n := 0
+	for _, name := range []string{"(*History).previous", "(*History).next"} {
+		fn := l.Fn("fzf", name)
+		if fn == nil {
+			r.unest("anchors:"+name, token.NoPos, nil, "anchor "+name, "cannot resolve")
+			continue
+		}
+		k := 0
+		eachInstr(fn, func(in ssa.Instruction) {
+			ret, ok := in.(*ssa.Return)
+			if !ok || len(ret.Results) != 1 {
+				return
+			}
+			n++
+			k++
+			v := retResult(ret, 0)
+			call, ok := v.(*ssa.Call)
+			r.check(ok && call.Common().StaticCallee() == cur, fmt.Sprintf("%s:return #%d goes through current()", relName(fn), k), ret.Pos(), fn,
+				"h.current()", "returns "+describe(v)+": the edits kept in History.modified are bypassed")
+		})
+	}
+	r.floor("returns of History.previous / next", n, 2)
+}
+
 // round9 runs the round-9 rules of a property (own and shared).
 func round9(c *Ctx, r *Report, prop string) {
 	switch prop {
@@ -808,5 +1541,27 @@ func round9(c *Ctx, r *Report, prop string) {
 		c10r12(c, r)
 	case "C13":
 		c13r12(c, r)
+		c13r13(c, r)
+		c13r14(c, r)
+	case "C11":
+		c11r21(c, r)
+	case "C12":
+		c12r14(c, r)
+	case "C14":
+		c14r20(c, r)
+		c16r6(c, r) // a GET with a negative or oversized number cannot reach the indexing code
+	case "C15":
+		c11r15(c, r) // the header lines of a reloaded input replace those of the old one
+		c11r21(c, r)
+	case "C16":
+		c12r14(c, r) // the API key reaches the listener inside the popup unchanged
+		c16r20(c, r)
+	case "C17":
+		c17r24(c, r)
+		c17r25(c, r)
+	case "C18":
+		c18r13(c, r)
+		c18r14(c, r)
+		c18r15(c, r)
 	}
 }
